@@ -392,6 +392,11 @@ def run(prop, tier):
             rep.violation(facts, {"job": jobs[rj["tid"] - 1], "accepted_prefix": rj["prefix"],
                                   "failing_event": t["ev"][rj["prefix"]] if rj["prefix"] < len(t["ev"]) else None,
                                   "failed_clauses": sorted(rj["why"]), "monitor_state": repr(rj["state"])})
+        if prop in ("C05", "C19"):
+            # the executions the maintainers wrote: the repository's own test suite, recorded and validated
+            from . import suite_rec
+            suite_rec.validate_suite(rep, wd, prop)
+            common.tick("repository test suite validated")
         rep.assumptions += [
             "value equality is decided by a Python digest (pickle/ndarray bytes), sizes by sys.getsizeof",
             "cache projection read from MemoryCache.{lru_deque,cache,memory_usage} (attributes the suite inspects)",
